@@ -91,16 +91,91 @@ def cpp_source(db: proto.TypeDB, gen: str) -> str:
         if c['kind'] == 'union':
             L.append('    std::printf(" count=%%lu", static_cast<unsigned long>(%s::VariantType::MAX_INDEX));' % T)
         L.append('    std::putchar(\'\\n\');')
+    L += cpp_service_lines(db)
     L += ['    return 0;', '}', '']
     return '\n'.join(L)
+
+
+def services(db: proto.TypeDB) -> typing.Dict[str, dict]:
+    out: typing.Dict[str, dict] = {}
+    for t in db.ids():
+        c = db.comp(t)
+        if c.get('service_id'):
+            out.setdefault(c['service_id'], {})[c['service_part']] = c
+    return out
+
+
+def cpp_service_lines(db: proto.TypeDB) -> typing.List[str]:
+    L = []
+    for sid, parts in services(db).items():
+        p = sid.split('.')
+        S = '::' + '::'.join(p[:-2]) + '_%s_%s' % (p[-2], p[-1])
+        L.append('    { using Tr = %s::_traits_; std::printf("S %s svc=%%d issvc=%%d req=%%d rsp=%%d reqalias=%%d rspalias=%%d\\n", '
+                 'int(Tr::IsServiceType), int(Tr::IsService), int(Tr::IsRequest), int(Tr::IsResponse), '
+                 'int(std::is_same<%s::Request, %s>::value), int(std::is_same<%s::Response, %s>::value)); }'
+                 % (S, sid, S, cpp_type(parts['Request']), S, cpp_type(parts['Response'])))
+    return L
+
+
+def probe_py_services(tgt, db: proto.TypeDB) -> typing.Tuple[bool, typing.Any]:
+    """_FIXED_PORT_ID_ of the generated Python SERVICE classes (py/templates/ServiceType.j2), read from the imported modules"""
+    sids = sorted(services(db))
+    script = ('import importlib, sys\n'
+              'for sid in sys.argv[1:]:\n'
+              '    p = sid.split(".")\n'
+              '    name = "%s_%s_%s" % (p[-3], p[-2], p[-1])\n'
+              '    m = importlib.import_module(".".join(p[:-3] + [name]))\n'
+              '    cls = getattr(m, name)\n'
+              '    print("S", sid, "port=%s" % getattr(cls, "_FIXED_PORT_ID_", "none"), "has_req=%d" % hasattr(cls, "Request"), '
+              '"has_rsp=%d" % hasattr(cls, "Response"))\n')
+    p = subprocess.run([target_c.PY, '-c', script] + sids, env=tgt.env, cwd=tgt.workdir, stdout=subprocess.PIPE, stderr=subprocess.STDOUT,
+                       text=True, errors='replace', timeout=300)
+    if p.returncode != 0:
+        return False, 'python service probe failed: %s' % p.stdout[-2000:]
+    res = {}
+    for line in p.stdout.splitlines():
+        t = line.split()
+        if len(t) >= 2 and t[0] == 'S':
+            res[t[1]] = dict(x.split('=', 1) for x in t[2:] if '=' in x)
+    return True, res
+
+
+CLASH_FILES = {'nsk/Clash.1.0.dsdl': 'uint16 EXTENT_BYTES_ = 999\nuint8 SERIALIZATION_BUFFER_SIZE_BYTES_ = 1\nuint8[<=3] xs\n@sealed\n'}
+
+
+def probe_macro_clash(repo: str, workdir: str) -> typing.Tuple[bool, str]:
+    """witness of F-C-MACRO-CLASH: (reproduces, detail).  Generated with the real nnvg, compiled WITHOUT -Werror (gcc only warns)."""
+    ns = os.path.join(workdir, 'nsk')
+    os.makedirs(ns, exist_ok=True)
+    with open(os.path.join(ns, 'Clash.1.0.dsdl'), 'w') as f:
+        f.write(CLASH_FILES['nsk/Clash.1.0.dsdl'])
+    env = dict(os.environ, PYTHONPATH=os.path.join(repo, 'src'), PYTHONDONTWRITEBYTECODE='1')
+    gen = os.path.join(workdir, 'gen')
+    p = subprocess.run([target_c.PY, '-m', 'nunavut', '--target-language', 'c', '--outdir', gen, ns], env=env, stdout=subprocess.PIPE,
+                       stderr=subprocess.STDOUT, text=True, errors='replace', timeout=300)
+    if p.returncode != 0:
+        return False, 'nnvg refused the witness (no longer reproduces): %s' % p.stdout[-300:].replace('\n', ' ')
+    src, exe = os.path.join(workdir, 'clash.c'), os.path.join(workdir, 'clash')
+    with open(src, 'w') as f:
+        f.write('#include <stdio.h>\n#include <stdint.h>\n#include "nsk/Clash_1_0.h"\nint main(void){ nsk_Clash_1_0 o; uint8_t b[16]; size_t n = '
+                '(size_t) nsk_Clash_1_0_SERIALIZATION_BUFFER_SIZE_BYTES_; nsk_Clash_1_0_initialize_(&o); o.xs.count = 3; '
+                'printf("ext=%lu buf=%lu rc=%d\\n", (unsigned long) nsk_Clash_1_0_EXTENT_BYTES_, '
+                '(unsigned long) nsk_Clash_1_0_SERIALIZATION_BUFFER_SIZE_BYTES_, (int) nsk_Clash_1_0_serialize_(&o, b, &n)); return 0; }\n')
+    q = subprocess.run(['gcc', '-std=c11', '-w', '-I', gen, src, '-o', exe, '-lm'], stdout=subprocess.PIPE, stderr=subprocess.STDOUT, text=True,
+                       errors='replace', timeout=300)
+    if q.returncode != 0:
+        return False, 'the witness header does not compile (no longer reproduces as a silent clash): %s' % q.stdout[-300:].replace('\n', ' ')
+    r = subprocess.run([exe], stdout=subprocess.PIPE, stderr=subprocess.STDOUT, text=True, timeout=60)
+    out = r.stdout.strip()
+    return out != 'ext=4 buf=4 rc=0', out
 
 
 def _parse(out: str) -> typing.Dict[str, typing.Dict[str, str]]:
     res: typing.Dict[str, typing.Dict[str, str]] = {}
     for line in out.splitlines():
         t = line.split()
-        if len(t) >= 2 and t[0] == 'T':
-            res[t[1]] = dict(x.split('=', 1) for x in t[2:] if '=' in x)
+        if len(t) >= 2 and t[0] in ('T', 'S'):
+            res[('svc:' if t[0] == 'S' else '') + t[1]] = dict(x.split('=', 1) for x in t[2:] if '=' in x)
     return res
 
 
